@@ -950,6 +950,19 @@ class Exec:
     def as_ufl(self, st, it):
         if isinstance(it, UFL): return it
         if isinstance(it, EnumerateOf): return it
+        if isinstance(it, Sym) and it.ty.kind == "str":      # iterating a string yields its 1-character substrings
+            return UFL(STR, (lambda i, z=it.z: z3.SubString(z, i, 1)), z3.Length(it.z))
+        if isinstance(it, Sym) and it.ty.kind == "seqlist":
+            return UFL(it.ty.args[0], (lambda i, z=it.z: z[i]), z3.Length(it.z))
+        if isinstance(it, (list, tuple)):
+            items = list(it)
+            if items and all(isinstance(lift_try(x), Sym) for x in items) and len({lift_try(x).ty for x in items}) == 1:
+                ty = lift_try(items[0]).ty; zs = [lift_try(x).z for x in items]
+                def at(i, zs=zs):
+                    r = zs[-1]
+                    for k in reversed(range(len(zs) - 1)): r = z3.If(i == k, zs[k], r)
+                    return r
+                return UFL(ty, at, z3.IntVal(len(zs)))
         raise Unsupported("iterate %r" % (it,))
 
     # ------------------------------------------------------------ spec mode
@@ -963,6 +976,9 @@ class Exec:
         return specmode.SpecEval(self, st, extra or {}).ev(ast.parse(expr, mode="eval").body)
 
 def lift_maybe(v): return v
+def lift_try(v):
+    try: return lift(v)
+    except TypeError: return None
 def same_value(a, b):
     if isinstance(a, Sym) and isinstance(b, Sym): return a.z.eq(b.z)
     if isinstance(a, UFL) and isinstance(b, UFL): return a is b
